@@ -98,6 +98,17 @@ def families(tier):
               dict(bus='A', pat='*', name='hw', prog=[('ret', 9)], kind='sync'), dict(bus='A', pat='X', name='hx', prog=[('disp', 'A', 'O', 'ff')])]
         main = [('disp', 'A', 'O', 'ff'), ('disp', 'A', 'X', 'ff')]
         add('c01.registration', f'pinned-type-{kind}-{"+".join(pats).replace("*", "star").replace(":", "")}', scn({'A': {}}, hs, main), kind=kind)
+    # --- family 2e: events of a class that is falsy (an empty batch, __len__ == 0): dispatched from ordinary code, from a handler (fire-and-forget / awaited), forwarded
+    for how, kind in itertools.product(['main', 'ff', 'await', 'fwd'], ['async', 'sync']):
+        buses = {'A': {}, 'B': {}} if how == 'fwd' else {'A': {}}
+        hs = [dict(bus='A', pat='E', name='h1', prog=[('ret', 1)] if kind == 'sync' else [('pause',), ('ret', 1)], kind=kind), dict(bus='A', pat='s:E', name='h2', prog=[('ret', 2)]),
+              dict(bus='A', pat='*', name='hw', prog=[('ret', 9)], kind='sync')]
+        if how in ('ff', 'await'):
+            hs.append(dict(bus='A', pat='P', name='hp', prog=[('disp', 'A', 'E', how), ('pause',)]))
+        if how == 'fwd':
+            hs.append(dict(bus='B', pat='E', name='hB', prog=[('ret', 3)]))
+        main = [('disp', 'A', 'E', 'ff')] if how in ('main', 'fwd') else [('disp', 'A', 'P', 'ff')]
+        add('c01.registration', f'falsy-event-{how}-{kind}', scn(buses, hs, main + [('disp', 'A', 'X', 'ff')], forwards=[('A', 'B')] if how == 'fwd' else []), kind=kind)
     # --- family 2c: handlers that are bound methods of an EventBus instance (a component class deriving from EventBus that subscribes its own methods),
     # registered on that bus itself or on another bus, reached directly and through forwarding
     for kind, owner, reg_on, entry in itertools.product(['abusmethod', 'busmethod'], 'AB', 'AB', 'AB'):
